@@ -19,6 +19,11 @@ int IndexRemapper::map_from(int from) const { return f(from); }
 // a symbolic index: 0 ("none") or any positive index up to 2^30 (so that f does not overflow)
 static int idx() { int i = nondet_int(); ASSUME(i >= 0 && i <= (1 << 30)); return i; }
 
+// one-character strings written straight into the small-string buffer (std::string::operator= drags the whole
+// _M_replace overlap analysis into the query) and compared by size and first byte
+static void set1(std::string &s, char c) { s._M_local_buf[0] = c; s._M_local_buf[1] = 0; s._M_string_length = 1; }
+static bool is1(const std::string &s, char c) { return s.size() == 1 && s[0] == c; }
+
 #define DISPATCH(body) { int n_sym = nondet_int(); ASSUME(n_sym >= 0 && n_sym <= NMAX); \
   if (n_sym == 0) { body<0>(); return; } \
   if (NMAX >= 1 && n_sym == 1) { body<(NMAX >= 1 ? 1 : 0)>(); return; } \
@@ -44,7 +49,7 @@ template<int N> static void type_body() {
   int old_outer_class = r->_outer_class = idx();
   int old_wrapped_type = r->_wrapped_type = idx();
   int old_destructor = r->_destructor = idx();
-  r->_name = "n"; r->_scoped_name = "s"; r->_true_name = "t"; r->_comment = "c";
+  set1(r->_name, 'n'); set1(r->_scoped_name, 's'); set1(r->_true_name, 't'); set1(r->_comment, 'c');
   int o_ctor[N + 1], o_elem[N + 1], o_meth[N + 1], o_cast[N + 1], o_seq[N + 1], o_nest[N + 1];
   fill<N>(r->_constructors, o_ctor); fill<N>(r->_elements, o_elem); fill<N>(r->_methods, o_meth);
   fill<N>(r->_casts, o_cast); fill<N>(r->_make_seqs, o_seq); fill<N>(r->_nested_types, o_nest);
@@ -57,14 +62,14 @@ template<int N> static void type_body() {
   r->_enum_values.reserve(N);
   for (int i = 0; i < N; i++) {
     r->_enum_values.emplace_back();
-    r->_enum_values.back()._name = "e";
+    set1(r->_enum_values.back()._name, 'e');
     o_eval[i] = r->_enum_values.back()._value = nondet_int();
   }
   r->remap_indices(*remap);
   MAPPED(_outer_class, outer_class); MAPPED(_wrapped_type, wrapped_type); MAPPED(_destructor, destructor);
   KEPT(_flags, flags); KEPT(_array_size, array_size);
   ASSERT((int)r->_atomic_token == old_atomic, "C11 atomic token (not an index) is left unchanged");
-  ASSERT(r->_name == "n" && r->_scoped_name == "s" && r->_true_name == "t" && r->_comment == "c", "C11 names and comment are left unchanged");
+  ASSERT(is1(r->_name, 'n') && is1(r->_scoped_name, 's') && is1(r->_true_name, 't') && is1(r->_comment, 'c'), "C11 names and comment are left unchanged");
   check<N>(r->_constructors, o_ctor, "constructors"); check<N>(r->_elements, o_elem, "elements"); check<N>(r->_methods, o_meth, "methods");
   check<N>(r->_casts, o_cast, "casts"); check<N>(r->_make_seqs, o_seq, "make_seqs"); check<N>(r->_nested_types, o_nest, "nested types");
   ASSERT(r->_derivations.size() == (size_t)N && r->_enum_values.size() == (size_t)N, "C11 remapping keeps the length of every index vector");
@@ -75,7 +80,7 @@ template<int N> static void type_body() {
     ASSERT(r->_derivations[i]._flags == o_dflags[i], "C11 derivation flags (not an index) are left unchanged");
   }
   for (int i = 0; i < N && i < (int)r->_enum_values.size(); i++)
-    ASSERT(r->_enum_values[i]._value == o_eval[i] && r->_enum_values[i]._name == "e", "C11 enum values (not indices) are left unchanged");
+    ASSERT(r->_enum_values[i]._value == o_eval[i] && is1(r->_enum_values[i]._name, 'e'), "C11 enum values (not indices) are left unchanged");
   WITNESS();
 }
 extern "C" void harness_c11_remap_type() { DISPATCH(type_body) }
@@ -86,12 +91,12 @@ template<int N> static void function_body() {
   IndexRemapper *remap = new IndexRemapper;
   int old_flags = r->_flags = nondet_int();
   int old_class = r->_class = idx();
-  r->_name = "n"; r->_scoped_name = "s"; r->_comment = "c"; r->_prototype = "p";
+  set1(r->_name, 'n'); set1(r->_scoped_name, 's'); set1(r->_comment, 'c'); set1(r->_prototype, 'p');
   int o_c[N + 1], o_py[N + 1];
   fill<N>(r->_c_wrappers, o_c); fill<N>(r->_python_wrappers, o_py);
   r->remap_indices(*remap);
   MAPPED(_class, class); KEPT(_flags, flags);
-  ASSERT(r->_name == "n" && r->_scoped_name == "s" && r->_comment == "c" && r->_prototype == "p", "C11 names, comment and prototype are left unchanged");
+  ASSERT(is1(r->_name, 'n') && is1(r->_scoped_name, 's') && is1(r->_comment, 'c') && is1(r->_prototype, 'p'), "C11 names, comment and prototype are left unchanged");
   check<N>(r->_c_wrappers, o_c, "c wrappers"); check<N>(r->_python_wrappers, o_py, "python wrappers");
   WITNESS();
 }
@@ -105,23 +110,23 @@ template<int N> static void wrapper_body() {
   int old_function = r->_function = idx();
   int old_return_type = r->_return_type = idx();
   int old_return_value_destructor = r->_return_value_destructor = idx();
-  r->_name = "n"; r->_unique_name = "u"; r->_comment = "c";
+  set1(r->_name, 'n'); set1(r->_unique_name, 'u'); set1(r->_comment, 'c');
   int o_pt[N + 1], o_pf[N + 1];
   r->_parameters.reserve(N);
   for (int i = 0; i < N; i++) {
     r->_parameters.emplace_back();
-    r->_parameters.back()._name = "x";
+    set1(r->_parameters.back()._name, 'x');
     o_pf[i] = r->_parameters.back()._parameter_flags = nondet_int();
     o_pt[i] = r->_parameters.back()._type = idx();
   }
   r->remap_indices(*remap);
   MAPPED(_function, function); MAPPED(_return_type, return_type); MAPPED(_return_value_destructor, return_value_destructor);
   KEPT(_flags, flags);
-  ASSERT(r->_name == "n" && r->_unique_name == "u" && r->_comment == "c", "C11 names and comment are left unchanged");
+  ASSERT(is1(r->_name, 'n') && is1(r->_unique_name, 'u') && is1(r->_comment, 'c'), "C11 names and comment are left unchanged");
   ASSERT(r->_parameters.size() == (size_t)N, "C11 remapping keeps the length of every index vector");
   for (int i = 0; i < N && i < (int)r->_parameters.size(); i++) {
     ASSERT(r->_parameters[i]._type == f(o_pt[i]), "C11 parameter type is rewritten through the index map");
-    ASSERT(r->_parameters[i]._parameter_flags == o_pf[i] && r->_parameters[i]._name == "x", "C11 parameter flags and name are left unchanged");
+    ASSERT(r->_parameters[i]._parameter_flags == o_pf[i] && is1(r->_parameters[i]._name, 'x'), "C11 parameter flags and name are left unchanged");
   }
   WITNESS();
 }
@@ -137,30 +142,30 @@ extern "C" void harness_c11_remap_scalars() {
     int old_has_function = r->_has_function = idx(), old_clear_function = r->_clear_function = idx();
     int old_del_function = r->_del_function = idx(), old_length_function = r->_length_function = idx();
     int old_insert_function = r->_insert_function = idx(), old_getkey_function = r->_getkey_function = idx();
-    r->_name = "n"; r->_scoped_name = "s"; r->_comment = "c";
+    set1(r->_name, 'n'); set1(r->_scoped_name, 's'); set1(r->_comment, 'c');
     r->remap_indices(*remap);
     MAPPED(_type, type); MAPPED(_getter, getter); MAPPED(_setter, setter); MAPPED(_has_function, has_function);
     MAPPED(_clear_function, clear_function); MAPPED(_del_function, del_function); MAPPED(_length_function, length_function);
     MAPPED(_insert_function, insert_function); MAPPED(_getkey_function, getkey_function);
     KEPT(_flags, flags);
-    ASSERT(r->_name == "n" && r->_scoped_name == "s" && r->_comment == "c", "C11 names and comment are left unchanged");
+    ASSERT(is1(r->_name, 'n') && is1(r->_scoped_name, 's') && is1(r->_comment, 'c'), "C11 names and comment are left unchanged");
   }
   {
     InterrogateManifest *r = new InterrogateManifest;
     int old_flags = r->_flags = nondet_int(), old_int_value = r->_int_value = nondet_int();
     int old_type = r->_type = idx(), old_getter = r->_getter = idx();
-    r->_name = "n"; r->_definition = "d";
+    set1(r->_name, 'n'); set1(r->_definition, 'd');
     r->remap_indices(*remap);
     MAPPED(_type, type); MAPPED(_getter, getter); KEPT(_flags, flags); KEPT(_int_value, int_value);
-    ASSERT(r->_name == "n" && r->_definition == "d", "C11 name and definition are left unchanged");
+    ASSERT(is1(r->_name, 'n') && is1(r->_definition, 'd'), "C11 name and definition are left unchanged");
   }
   {
     InterrogateMakeSeq *r = new InterrogateMakeSeq;
     int old_length_getter = r->_length_getter = idx(), old_element_getter = r->_element_getter = idx();
-    r->_name = "n"; r->_scoped_name = "s"; r->_comment = "c";
+    set1(r->_name, 'n'); set1(r->_scoped_name, 's'); set1(r->_comment, 'c');
     r->remap_indices(*remap);
     MAPPED(_length_getter, length_getter); MAPPED(_element_getter, element_getter);
-    ASSERT(r->_name == "n" && r->_scoped_name == "s" && r->_comment == "c", "C11 names and comment are left unchanged");
+    ASSERT(is1(r->_name, 'n') && is1(r->_scoped_name, 's') && is1(r->_comment, 'c'), "C11 names and comment are left unchanged");
   }
   WITNESS();
 }
